@@ -62,7 +62,7 @@ func c10Exec(c histCase, x *pbt.Ctx) error {
 	if err != nil {
 		return fmt.Errorf("HARNESS: cannot start node: %v", err)
 	}
-	defer n.Stop()
+	defer n.Close()
 	order := ck.ApplyOrder(c.Order, nb)
 	prev := 0
 	reorgs, specials, maxDepth := 0, 0, 0
@@ -104,7 +104,7 @@ func c10Exec(c histCase, x *pbt.Ctx) error {
 	if err != nil {
 		return fmt.Errorf("HARNESS: cannot start fresh node: %v", err)
 	}
-	defer fresh.Stop()
+	defer fresh.Close()
 	for _, i := range w.Path(best) {
 		if _, err := fresh.Deliver(i); err != nil {
 			return fmt.Errorf("fresh node refuses main-chain block #%d (height %d) that the history node has on its main chain: %v", i, w.Blocks[i].Block.Height, err)
